@@ -84,6 +84,8 @@ def project(sd: Dict[str, Any], new_side: Dict[str, Any]) -> Dict[str, Any]:
         "renamed": sorted([s.short_name, o] for s, o in zip(sd["changed_name_of_service"][0], sd["changed_name_of_service"][1])),
         "changed_list": [s.short_name for s in sd["changed_parameters_of_service"][0]],
         "details": [],
+        # the one-line summary per changed service names every changed parameter
+        "summary_mentions": [str(x).count(" parameter '") for x in sd["changed_parameters_of_service"][1]],
     }
     lists = sd["changed_parameters_of_service"]
     for k, s in enumerate(lists[0]):
@@ -199,7 +201,7 @@ def process(args: Tuple[List[Dict[str, Any]], int, int]) -> Dict[str, Any]:
             db_o = load(rec["old"], {}, ex_o, ncp_o)
             db_n = load(rec["new"], ids, ex_n, ncp_n)
         except Exception as ex:  # noqa: BLE001
-            div.append(("version_does_not_load", {"edits": e, "exc": f"{type(ex).__name__}: {str(ex)[:120]}"}))
+            fail("version_does_not_load", rec, {"exc": f"{type(ex).__name__}: {str(ex)[:120]}"})
             continue
         dl_o, dl_n = db_o.diag_layers["BV"], db_n.diag_layers["BV"]
         task = shared if rng.random() < 0.7 else Comparison()
@@ -247,6 +249,9 @@ def process(args: Tuple[List[Dict[str, Any]], int, int]) -> Dict[str, Any]:
                 # a differing number of parameters is reported per service (the tool's wording of which list differs is not checked)
                 wd = {((d["svc"], d["w"], d["i"]) if d["i"] else (d["svc"], "list", 0)): set(d["labels"]) for d in want["details"]}
                 gd = {((d["svc"], d["w"], d["i"]) if d["i"] else (d["svc"], "list", 0)): set(d["labels"]) for d in got["details"]}
+                per_svc = [sum(1 for d in got["details"] if d["svc"] == nm and d["i"]) for nm in got["changed_list"]]
+                if got["summary_mentions"] != per_svc:
+                    fail("changed_parameters_summary", rec, {**base, "mentions": got["summary_mentions"], "tables": per_svc})
                 if set(wd) != set(gd):
                     fail("changed_parameter", rec, {**base, "expected_params": sorted(map(list, wd)), "got_params": sorted(map(list, gd))})
                 else:
